@@ -1056,13 +1056,13 @@ def datawrapper_family():
             for w in range(nw):
                 ranks[r]["nodes"].append({"op": "data", "values": [10 * r + w + 1, 7 * w - r, (r + 2) * (w + 3)]})
                 dw[(r, w)] = len(ranks[r]["nodes"]) - 1
-        # round 1: rank r sends (x op wrapper_w) for w < nw-1 to rank r+1 (mod nranks): several sent
+        # round 1: rank r sends (x op wrapper_w) for every w to rank r+1 (mod nranks): several sent
         # arrays of ONE part, each reaching its own wrapper
         holders = {r: 0 for r in range(nranks)}
         for r in range(nranks):
             dst = (r + 1) % nranks
             nodes = ranks[r]["nodes"]
-            for w in range(nw - 1):
+            for w in range(nw):
                 nodes.append({"op": "add" if (w + variant) % 2 == 0 else "mul", "a": 0, "b": dw[(r, w)]})
                 tags.append(["i", 100 + len(tags)])
                 t = len(tags) - 1
@@ -1076,7 +1076,7 @@ def datawrapper_family():
             for j, (src, t) in enumerate(incoming[r]):
                 nodes.append({"op": "recv", "src": src, "tag": t, "variant": 0})
                 rv = len(nodes) - 1
-                nodes.append({"op": "add" if (j + variant) % 2 else "mul", "a": rv, "b": dw[(r, (j + 1) % nw)]})
+                nodes.append({"op": "add" if (j + variant) % 2 else "mul", "a": rv, "b": dw[(r, j % nw)]})
                 outs.append([names[j % len(names)], len(nodes) - 1])
             # one more output on the last wrapper, independent of communication
             nodes.append({"op": "sub", "a": dw[(r, nw - 1)], "b": 0})
